@@ -434,20 +434,7 @@ func runPlanner(t *testing.T, id string) {
 			pr.evalRealloc(&planCase{Node: s, Place: &pq, Req: genReallocDelta(r, s, q), Via: "plugin-realloc"})
 		}
 	}
-	switch id {
-	case "C04":
-		if rec.Get("commits") < 500 {
-			rec.Inconclusive("fewer than 500 committed allocations observed")
-		}
-	case "C05":
-		if rec.Get("bound_instances_checked") < 5000 {
-			rec.Inconclusive("fewer than 5000 bound instances checked")
-		}
-	case "C06":
-		if rec.Get("planner_calls") < 10000 {
-			rec.Inconclusive("fewer than 10000 planner calls returned")
-		}
-	}
+	// minimum-observation thresholds are run-level (all batches merged): MIN_OBSERVED in checks_table.py, applied by the driver
 }
 
 func randomOrigin(r *rand.Rand, s *nodeState) map[string]int {
